@@ -8,7 +8,7 @@ The wire bytes are produced *here* (python) and again by the Lean encoders (`enc
 driver's judges `J peer`, `J form`, `J cookies` check (1) the executable well-formedness predicates (`okB`, sound w.r.t. the
 theorems' hypotheses), (2) python wire = Lean wire, (3) what the real application reported = the right-hand sides of the
 theorems (`HttpPeer.head … .env.toMap`, `formSorted (fields meant)`, `cookiesMeant`)."""
-from c01proto import hx
+from c01proto import hx, enc_scgi, enc_fcgi
 
 TOKEN = bytes(c for c in range(33, 127) if chr(c) not in '()<>@,;:\\"/[]?={} \t')
 NAME_CHARS = b"ABCDEFGHIJKLMNOPQRSTUVWXYZabcdefghijklmnopqrstuvwxyz0123456789-"
@@ -76,7 +76,8 @@ def gen_form(rng, n):
         name = bytes(rng.randint(1, 255) for _ in range(rng.randint(1, 6)))
         value = bytes(rng.randint(1, 255) for _ in range(rng.randint(0, 8)))
         # what must not appear literally inside a query string on the request line / in a form body
-        bad = set(range(0, 33)) | set(range(127, 256)) | {38, 61, 63, 35} | LINE_BAD
+        # ('?' keeps no meaning after the first one of the URI and may stay literal)
+        bad = set(range(0, 33)) | set(range(127, 256)) | {38, 61, 35} | LINE_BAD
         fs.append((pieces_for(rng, name, bad), pieces_for(rng, value, bad)))
     return fs
 
@@ -89,28 +90,41 @@ def enc_form(fs):
     return ";".join(enc_pieces(n) + "=" + enc_pieces(v) for n, v in fs) if fs else "-"
 
 
-def gen_cookies(rng, n):
+def gen_cookies(rng, n, quoted=False):
+    """items (name, value, sep, ws, esc): esc None = token value; list of bools = quoted string, flag = backslash in front"""
     cs = []
     for _ in range(n):
         name = rand_from(rng, TOKEN.replace(b"$", b""), 1, 6)
-        value = rand_from(rng, TOKEN, 0, 8)
         sep = rng.choice([59, 44])
         ws = bytes(rng.choice([32, 9]) for _ in range(rng.randint(0, 3)))
-        cs.append((name, value, sep, ws))
+        if quoted and rng.random() < 0.6:
+            value = bytes(rng.randint(1, 255) for _ in range(rng.randint(0, 10)))
+            esc = [(b in (34, 92)) or rng.random() < 0.15 for b in value]
+        else:
+            value = rand_from(rng, TOKEN, 0, 8)
+            esc = None
+        cs.append((name, value, sep, ws, esc))
     return cs
+
+
+def cookie_value_wire(v, esc):
+    if esc is None:
+        return v
+    return b'"' + b"".join((b"\\" if e else b"") + bytes([b]) for b, e in zip(v, esc)) + b'"'
 
 
 def cookies_wire(cs):
     out = b""
-    for i, (n, v, sep, ws) in enumerate(cs):
-        out += n + b"=" + v
+    for i, (n, v, sep, ws, esc) in enumerate(cs):
+        out += n + b"=" + cookie_value_wire(v, esc)
         if i + 1 < len(cs):
             out += bytes([sep]) + ws
     return out
 
 
 def enc_cookies(cs):
-    return ",".join(f"{hxd(n)}:{hxd(v)}:{sep:02x}:{hxd(ws)}" for n, v, sep, ws in cs) if cs else "-"
+    return ",".join(f"{hxd(n)}:{hxd(v)}:{sep:02x}:{hxd(ws)}:" + ("t" if esc is None else "".join("1" if e else "0" for e in esc))
+                    for n, v, sep, ws, esc in cs) if cs else "-"
 
 
 def fold_line(rng, line):
@@ -181,8 +195,25 @@ def gen_peer(rng):
     return q
 
 
+def gen_gateway(rng):
+    """a gateway's request (SCGI / FastCGI) whose QUERY_STRING and HTTP_COOKIE are written by the peer-side encoders; cookie
+    values may be quoted strings with arbitrary bytes (over HTTP the quotes would concern the header parser first)"""
+    q = Peer()
+    q.gateway = True
+    q.get = gen_form(rng, rng.randint(0, 4))
+    q.query = form_wire(q.get)
+    q.cookies = gen_cookies(rng, rng.randint(1, 5), quoted=True)
+    pairs = [(b"CONTENT_LENGTH", b"0"), (b"REQUEST_METHOD", b"GET"), (b"SCRIPT_NAME", rng.choice([b"/s", b"/a"])), (b"PATH_INFO", b"/c"),
+             (b"QUERY_STRING", q.query), (b"HTTP_COOKIE", cookies_wire(q.cookies))]
+    q.wires = {"scgi": enc_scgi(pairs, b""), "fastcgi": enc_fcgi(pairs, b"")}
+    return q
+
+
 def judge_lines(q, hp, app_kv):
     """the three judge lines for the echo `app_kv` (dict of the canonical app string: env, get, cookies, body)"""
+    if getattr(q, "gateway", False):
+        return ["J form " + enc_form(q.get) + " " + hxd(q.query) + " " + app_kv["get"],
+                "J cookies " + enc_cookies(q.cookies) + " " + hxd(cookies_wire(q.cookies)) + " " + app_kv["cookies"]]
     fields = ",".join(f"{hxd(n)}:{hxd(ws)}:{hxd(v)}" for n, ws, v in q.fields) if q.fields else "-"
     lines = ";".join("|".join([hxd(h)] + [hxd(t) for t in tl]) for h, tl in q.flines)
     query = "-" if q.query is None else hxd(q.query)
